@@ -108,9 +108,13 @@ def _strategy(draw):
         spec["primed"] = draw(st.booleans())
     edge = gc.dilute_box(spec)
     opts = {}
-    box_kind = draw(st.sampled_from(["box", "box", "rect", "dens"]))
+    box_kind = draw(st.sampled_from(["box", "box", "rect", "dens", "both"]))
     if box_kind == "box":
         opts["box"] = [edge, edge, edge]
+    elif box_kind == "both":
+        # -box and -dens together: the explicit box is the one that counts
+        opts["box"] = [edge, round(edge + 0.5, 2), edge]
+        opts["density"] = round(gc.total_mass(spec) * 1.660541 / (edge + draw(st.sampled_from([0.7, 1.3]))) ** 3, 4)
     elif box_kind == "rect":
         opts["box"] = [edge, round(edge + draw(st.sampled_from([0.5, 1.0, 2.5])), 2),
                        round(edge + draw(st.sampled_from([0.0, 1.5])), 2)]
